@@ -464,8 +464,9 @@ PROPS['C17']['expected_classes'] += ['form:both-inputs-one-array(same-pointer)',
 # ---- concurrent callers (fourth strengthening round): the properties derived by pbt::concurrent_of ("<name>@mt": K = 4 threads inside the routine at once, each with
 # its own operands and outputs) run on the plain build (wrong values) and on a ThreadSanitizer build (any unsynchronised shared access is a report)
 def _mt(harness, fast, tsan, only, q, t, qt=None, tt=None):
-    return [J(harness, fast, q, t, only=only, wq=4, wt=16, args=['--mt'], tag='mt', class_prefix='concurrent:'),
-            J(harness, tsan, qt if qt is not None else max(200, q // 20), tt if tt is not None else max(2000, t // 20), only=only, wq=4, wt=16, args=['--mt'], tag='mt-tsan', class_prefix='concurrent-tsan:')]
+    # (four workers in both tiers: each runs four caller threads, so sixteen threads use the sixteen cores; more would only make the callers wait for each other)
+    return [J(harness, fast, q, t // 2, only=only, wq=4, wt=4, args=['--mt'], tag='mt', class_prefix='concurrent:'),
+            J(harness, tsan, qt if qt is not None else max(200, q // 20), tt if tt is not None else max(2000, t // 40), only=only, wq=4, wt=4, args=['--mt'], tag='mt-tsan', class_prefix='concurrent-tsan:')]
 _MT_RULE = (' Concurrent callers: the same generators also run as "<property>@mt": four threads call the routine at the same time, each with its own operands and outputs, six rounds from a common start; every thread checks '
             'its own results against the oracle (plain build) and ThreadSanitizer watches for unsynchronised shared accesses (hidden static buffers, one-entry caches, lazily built tables).')
 PROPS['C01']['jobs'] += _mt('h_c01', 'fast2', 'tsan2', None, 200_000, 10_000_000)
@@ -473,19 +474,19 @@ PROPS['C02']['jobs'] += _mt('h_lanes', 'fast2', 'tsan2', 'c02', 200_000, 10_000_
 PROPS['C11']['jobs'] += _mt('h_lanes', 'fast5', 'tsan5', 'c11', 200_000, 10_000_000)
 PROPS['C13']['jobs'] += _mt('h_lanes', 'fast2', 'tsan2', 'c13', 60_000, 3_000_000)
 PROPS['C14']['jobs'] += _mt('h_lanes', 'fast5', 'tsan5', 'c14', 60_000, 3_000_000)
-PROPS['C06']['jobs'] += _mt('h_poseidon', 'fast5', 'tsan5', 'c06.perm,c06.backsolved,c06.partial', 40_000, 2_000_000)
-PROPS['C07']['jobs'] += _mt('h_poseidon', 'fast5', 'tsan5', 'c07.random', 1_000, 200_000, qt=80, tt=10_000)
-PROPS['C08']['jobs'] += _mt('h_poseidon', 'fast5', 'tsan5', 'c08.random', 500, 80_000, qt=120, tt=8_000)
+PROPS['C06']['jobs'] += _mt('h_poseidon', 'fast5', 'tsan5', 'c06.perm,c06.backsolved,c06.partial', 40_000, 800_000)
+PROPS['C07']['jobs'] += _mt('h_poseidon', 'fast5', 'tsan5', 'c07.random', 1_000, 8_000, qt=80, tt=400)
+PROPS['C08']['jobs'] += _mt('h_poseidon', 'fast5', 'tsan5', 'c08.random', 500, 8_000, qt=120, tt=2_000)
 PROPS['C09']['jobs'] += _mt('h_cubic', 'fast2', 'tsan2', None, 100_000, 5_000_000)
 PROPS['C10']['jobs'] += _mt('h_scalar2', 'fast2', 'tsan2', 'c10', 100_000, 5_000_000)
 PROPS['C15']['jobs'] += _mt('h_scalar2', 'fast2', 'tsan2', 'c15', 200_000, 10_000_000)
-PROPS['C16']['jobs'] += _mt('h_cubic_batch', 'fast5', 'tsan5', None, 40_000, 5_000_000, qt=4_000)
-PROPS['C17']['jobs'] += _mt('h_wrappers', 'fast5', 'tsan5', None, 30_000, 5_000_000, qt=3_000)
+PROPS['C16']['jobs'] += _mt('h_cubic_batch', 'fast5', 'tsan5', None, 40_000, 600_000, qt=4_000, tt=40_000)
+PROPS['C17']['jobs'] += _mt('h_wrappers', 'fast5', 'tsan5', None, 30_000, 600_000, qt=3_000, tt=40_000)
 for _p in ('C01', 'C02', 'C06', 'C07', 'C08', 'C09', 'C10', 'C11', 'C13', 'C14', 'C15', 'C16', 'C17'):
     PROPS[_p]['rule'] += _MT_RULE
     PROPS[_p]['expected_classes'] = list(PROPS[_p].get('expected_classes', [])) + ['concurrent:callers:several-threads-inside-the-routine-at-once']
 for _p, _o in (('C03', 'c03.random'), ('C04', 'c04.random'), ('C05', 'c05.random')):
-    PROPS[_p]['jobs'] += _mt('h_ntt', 'fast2', 'tsan2', _o, 1_200, 60_000, qt=200, tt=6_000)
+    PROPS[_p]['jobs'] += _mt('h_ntt', 'fast2', 'tsan2', _o, 1_200, 60_000, qt=200, tt=3_000)
     PROPS[_p]['rule'] += _MT_RULE
     PROPS[_p]['expected_classes'] = list(PROPS[_p].get('expected_classes', [])) + ['concurrent:callers:several-threads-inside-the-routine-at-once']
 
@@ -508,7 +509,7 @@ PROPS['C17']['jobs'] += _nd('h_wrappers', 'ndbg5', None, 150_000, 8_000_000)
 # ---- concurrent FIRST use: the same "@mt" properties with every case in a freshly forked child of a parent that has not touched the library
 # (static-initialisation probes switched off): whatever a routine builds lazily on first use is built while several callers are inside it
 def _mtcold(harness, cfg, only, q, t):
-    return [J(harness, cfg, q, t, only=only, wq=8, wt=16, args=['--mt', '--forkall'], env={'PBT_NO_EARLY': '1'}, tag='mt-cold', class_prefix='concurrent-first-use:')]
+    return [J(harness, cfg, q, t // 2, only=only, wq=4, wt=4, args=['--mt', '--forkall'], env={'PBT_NO_EARLY': '1'}, tag='mt-cold', class_prefix='concurrent-first-use:')]
 PROPS['C01']['jobs'] += _mtcold('h_c01', 'fast2', None, 4_000, 200_000)
 PROPS['C09']['jobs'] += _mtcold('h_cubic', 'fast2', 'c09.op', 4_000, 200_000)
 PROPS['C10']['jobs'] += _mtcold('h_scalar2', 'fast2', 'c10', 8_000, 400_000)
@@ -516,11 +517,11 @@ PROPS['C15']['jobs'] += _mtcold('h_scalar2', 'fast2', 'c15', 4_000, 200_000)
 
 # C12 also owns the question "may two calls be in flight at once": transforms, tree builders and bulk copies entered by several application threads
 # (each with its own objects and buffers) -- the same @mt properties as above, charged to C12 as well
-PROPS['C12']['jobs'] += [J('h_ntt', 'tsan2', 300, 10_000, only='c03.random,c04.random,c05.random', wq=8, wt=16, args=['--mt'], tag='app-threads-tsan', class_prefix='app-threads-tsan:'),
-                         J('h_ntt', 'fast2', 1_500, 80_000, only='c03.random,c04.random,c05.random', wq=8, wt=16, args=['--mt'], tag='app-threads', class_prefix='app-threads:'),
-                         J('h_poseidon', 'tsan5', 120, 8_000, only='c08.random', wq=8, wt=16, args=['--mt'], tag='app-threads-merkle-tsan', class_prefix='app-threads-tsan:'),
-                         J('h_poseidon', 'fast5', 500, 80_000, only='c08.random', wq=8, wt=16, args=['--mt'], tag='app-threads-merkle', class_prefix='app-threads:'),
-                         J('h_wrappers', 'tsan5', 500, 20_000, only='c17.par', wq=4, wt=16, args=['--mt'], tag='app-threads-par-tsan', class_prefix='app-threads-tsan:')]
+PROPS['C12']['jobs'] += [J('h_ntt', 'tsan2', 300, 3_000, only='c03.random,c04.random,c05.random', wq=4, wt=4, args=['--mt'], tag='app-threads-tsan', class_prefix='app-threads-tsan:'),
+                         J('h_ntt', 'fast2', 1_500, 30_000, only='c03.random,c04.random,c05.random', wq=4, wt=4, args=['--mt'], tag='app-threads', class_prefix='app-threads:'),
+                         J('h_poseidon', 'tsan5', 120, 2_000, only='c08.random', wq=4, wt=4, args=['--mt'], tag='app-threads-merkle-tsan', class_prefix='app-threads-tsan:'),
+                         J('h_poseidon', 'fast5', 500, 8_000, only='c08.random', wq=4, wt=4, args=['--mt'], tag='app-threads-merkle', class_prefix='app-threads:'),
+                         J('h_wrappers', 'tsan5', 500, 20_000, only='c17.par', wq=4, wt=4, args=['--mt'], tag='app-threads-par-tsan', class_prefix='app-threads-tsan:')]
 PROPS['C12']['rule'] += _MT_RULE
 # the AVX2 kernels as compiled into an AVX512 build (code under #ifdef __AVX512__ inside the AVX2 header)
 PROPS['C13']['jobs'] += [J('h_lanes', 'fast5', 300_000, 15_000_000, only='c13', wq=4, wt=16, tag='avx512-build', class_prefix='avx512-build:')]
